@@ -328,6 +328,14 @@ def lock_cmd(which):
         names = sorted({base_name(r.name) for r in ded['results'] if r.status == 'unsat'})
         bad = [r.name for r in ded['results'] if r.status != 'unsat']
         json.dump(names, open(os.path.join(LOCKDIR, prop + '.json'), 'w'), indent=1)
+        # baseline local names of every function under contract (tolerance to renamed locals, see pyvc/front.py)
+        from pyvc import front
+        for key in ded['ctx'].functions:
+            modname, qual = key.split(':', 1)
+            try:
+                front.record_names(modname, qual, front.module(modname).func(qual))
+            except front.SelectorError:
+                pass
         print(prop, len(names), 'obligations locked;', 'NOT discharged: %s' % bad if bad else 'all discharged', ded['ctx'].undecided)
 
 
